@@ -208,6 +208,9 @@ Qed.
 Lemma sort_sorted l : sorted (sort_by (fun y => y) l) = true.
 Proof. induction l as [|a l IH]; [reflexivity|]. cbn. now apply insert_sorted. Qed.
 
+Lemma filter_len_le {A} (p : A -> bool) l : (length (filter p l) <= length l)%nat.
+Proof. induction l as [|a l IH]; cbn; [lia|]. destruct (p a); cbn; lia. Qed.
+
 (* ---------- start times of the timed model ---------- *)
 Lemma jitters_spec ds rs :
   exists starts, jitters ds rs = Ok starts /\ length starts = length ds /\
@@ -244,7 +247,7 @@ Proof.
   rewrite N.eqb_refl. rewrite andb_true_r.
   apply andb_true_intro. split.
   - apply Nat.leb_le. cbn [length all_delays] in *.
-    pose proof (filter_length_le (fun s => s <=? D) (sort_by (fun y => y) st)) as Hf.
+    pose proof (filter_len_le (fun s => s <=? D) (sort_by (fun y => y) st)) as Hf.
     rewrite sort_length in Hf. lia.
   - assert (Hall : forall t, In t (0 :: st) -> existsb (fun d => within_pct d t) (all_delays delays) = true).
     { intros t Ht. destruct (Hin t Ht) as (d & r & Hd & Hr). apply existsb_exists. exists d.
@@ -267,7 +270,7 @@ Qed.
 (* non-vacuity / witnesses *)
 Example jitter_300 : add_jitter 300 77 = Ok 317.
 Proof. vm_compute. reflexivity. Qed.
-Example jitter_saturates : add_jitter U64_MAX (U64_MAX - 1) = Ok U64_MAX.
+Example jitter_saturates : add_jitter U64_MAX 184467440737095515 = Ok U64_MAX.
 Proof. vm_compute. reflexivity. Qed.
 Example jitter_one : add_jitter 1 12345 = Ok 1.
 Proof. vm_compute. reflexivity. Qed.
